@@ -273,7 +273,7 @@ impl Drop for Upstream {
     }
 }
 
-const GRANT_TIMEOUT: Duration = Duration::from_secs(2);
+const GRANT_TIMEOUT: Duration = Duration::from_secs(5);
 const SHORT_TIMEOUT: Duration = Duration::from_millis(15);
 /// channel capacity learned in this process: the occupancy at which a granted send blocked
 static LEARNED_CAP: AtomicUsize = AtomicUsize::new(usize::MAX);
